@@ -211,6 +211,11 @@ def run_case(case):
         obs["counters"]["dropped_source_%s" % cb["status"] if cb["status"] != "ok" else "not_converted"] = 1
         if cb["status"] == "ok" and not conv["documented"]:
             obs["counters"]["internal_error"] = 1
+        if cb["status"] == "ok":
+            # every form of the workload is a legal statement with legal operands: it must be converted
+            obs["nontrivial"] = True
+            obs["viols"].append({"sig": "C04/%s/valid-statement-%s" % (kind_name, "refused" if conv["documented"] else "internal-error"),
+                                 "detail": {"source": text[-300:], "exception": conv.get("exc"), "message": conv.get("msg")}})
         return obs
     b = harness.run_b09(conv["out"])
     detail = {"source": text.split("\n")[1][:300], "emitted": [ln for ln in conv["out"].split("\n") if ln.startswith("20 ") or ln.startswith("  ")][:6]}
